@@ -372,8 +372,15 @@ func runCase(t *testing.T, transport string, ops [][]string) []string {
 						// `regabort` before anything arrives leaves NewObservation through its write-error exit
 						req.SetType(message.Confirmable)
 					}
+					selfCancel := len(f) == 3 && f[2] == "self"
 					go func() {
 						o, err := w.cc.DoObserve(req, func(m *pool.Message) {
+							if selfCancel {
+								// the application gives up from inside its callback, at the first message it sees: the context ends
+								// while the registration call is on its way back
+								selfCancel = false
+								defer cancel()
+							}
 							w.log(fmt.Sprintf("cb %d %d %s %d %s", id, binary.BigEndian.Uint64(append(make([]byte, 8-len(m.Token())), m.Token()...)),
 								seqOf(m), time.Since(w.start).Nanoseconds(), tagOf(m)))
 						})
